@@ -18,7 +18,7 @@ MOD = "mc.props.c17"
 STORAGES = ("csv", "ods", "xlsx")
 FORMATS = ("delimited", "ods", "excel")
 FIELD_SETS = [["id", "name"], ["amount", "day", "kind", "id"], ["code", "tag", "const", "num"], ["kind", "note", "name"], ["day", "amount"], ["id", "amount", "day", "code", "tag", "const", "name"],
-              ["num", "kind", "id"], ["const", "name"], ["tag", "id"], ["note", "amount", "name"], ["id", "stamp"], ["stamp", "day", "name"]]
+              ["num", "kind", "id"], ["const", "name"], ["tag", "id"], ["note", "amount", "name"], ["id", "stamp"], ["stamp", "day", "name"], ["id", "memo", "name"], ["memo", "kind"]]
 
 
 def store_rows(rows, storage, name, odf_features=None, sheet=1):
@@ -27,7 +27,7 @@ def store_rows(rows, storage, name, odf_features=None, sheet=1):
         with open(path, "w", newline="", encoding="utf-8") as stream:
             csv.writer(stream, lineterminator="\n").writerows(rows)
     elif storage == "ods":
-        odf.write_ods(path, [[["filler"]]] * (sheet - 1) + [rows], odf_features or {})
+        odf.write_ods(path, [[["filler"]]] * (sheet - 1) + [rows], odf_features if odf_features is not None else {"span_range": [1, 6]})
     else:
         import xlsxwriter
 
@@ -114,7 +114,8 @@ def judge_table(case, part):
     results = {}
     for data_format in FORMATS:
         rows, decls = cid_rows_for(fields, data_format, sheet)
-        config = {"preset": data_format, "header": 0, "fields": fields, "sheet": sheet if data_format != "delimited" else 1}
+        config = {"preset": data_format, "header": 0, "fields": fields, "sheet": sheet if data_format != "delimited" else 1,
+                  "odf": {"span_range": [1, 6], "span_nested": bool(sheet % 2)}}  # ODS data: part of every longer cell inside inline elements
         for storage in STORAGES:
             outcome, cid = load(store_rows(rows, storage, "tcid"))
             part.transitions += 2
